@@ -129,6 +129,14 @@ func C05(c *sim.Ctx) {
 			b := d.next(m.Head())
 			desc = fmt.Sprintf("store block %d v%s diff=%s", b.B.Number, b.Version, diffString(b))
 			apply = func() error { return n.StoreBlock(b) }
+			if class == 2 && t.Draw("store.path", 3) == 2 {
+				// the sequencer path: the node derives root and hash itself and does not verify them
+				// against a declared value - a fault it swallows shows as a wrong block, not as an error
+				SignedVariant(b)
+				desc = "store (sequencer path) " + desc[len("store "):]
+				apply = func() error { return n.FinaliseBlock(b) }
+				c.Probe("block_finalised_under_fault_injection")
+			}
 			onOK = func() { m.Chain = append(m.Chain, b) }
 		case op <= 7 && m.Head().B.Number > m.Floor:
 			h := m.Head()
